@@ -298,6 +298,14 @@ def run_a3(case, acc, order):
                     degenerate = min(gaps) < 1e-6
                     acc.step(not degenerate, 'a3:pca' if not degenerate else 'a3:degenerate')
                     if degenerate:
+                        # the components are not unique, but the call must still return an array
+                        if not (isinstance(got, np.ndarray) and got.shape == F.shape):
+                            sig = '%s/pca-features/degenerate/%s' % (
+                                PROP, type(got).__name__ if isinstance(got, BaseException) else 'shape')
+                            acc.violation(sig, core.make_record(
+                                PROP, 'pca-features', sig, case=case,
+                                op={'spikes': [int(x) for x in req_ids]}, expected=list(F.shape),
+                                observed=describe(got)), order * 1000 + k)
                         continue
                     ok = isinstance(got, np.ndarray) and got.shape == F.shape and np.allclose(
                         np.abs(got), np.abs(F), rtol=1e-4, atol=1e-4)
@@ -370,7 +378,8 @@ def explore(ctx):
                             'fill': ctx.seed, 'n_spikes': 6, 'spike_templates': st,
                             'spike_clusters': sc,
                             # a template-feature table as wide as the number of templates, or narrower
-                            'n_tloc': 3 if k % 2 else 2}
+                            'n_tloc': 3 if k % 2 else 2,
+                            'feat_dtype': 'float64' if (k // 2) % 2 else 'float32'}
                     k += 1
                     cases.append({'kind': 'a2', 'full': ctx.thorough, 'spec': spec})
     ctx.run_cases(run_case, cases, chunk=1, sweep='A2-model-queries')
